@@ -42,7 +42,11 @@ func (g *pgen) litChar() int {
 		return g.from("ascii", asciiLits)
 	case k < 12:
 		return g.from("syntax", syntaxLits)
-	case k < 13:
+	case k < 14:
+		if g.pick("anyctl", 3) != 0 {
+			// every control character 1..26 (printed as \cA..\cZ / \ca..\cz among other styles)
+			return 1 + g.pick("ctlletter", 26)
+		}
 		return g.from("ctl", ctlLits)
 	case k < 15:
 		return g.from("caseless", caselessBMP)
@@ -77,7 +81,7 @@ func (g *pgen) style(c int, inClass bool) string {
 	case c < 0x20 || c == 0x7f:
 		opts = []string{"x2", "u4"}
 		if c >= 1 && c <= 26 {
-			opts = append(opts, "cc")
+			opts = append(opts, "cc", "cc", "ccl", "ccl")
 		}
 	case c < 0x80:
 		opts = []string{"raw", "raw", "raw", "raw", "x2", "u4"}
